@@ -385,6 +385,10 @@ func YieldLock(lock uintptr, lk int) (bool, bool) {
 	return true, t.tryOK
 }
 
+// YieldMem is the yield point of shared-memory containers (sync.Map): never blocked.
+// The object is hashed by kind, not by address, so that schedule hashes replay.
+func YieldMem(_ uintptr, op string) { yieldOp(hashStr(op), hashStr("sync.Map"), false) }
+
 // Yield is a plain yield point (used by shims without disk access).
 func Yield(kind, obj string) { yieldOp(hashStr(kind), hashStr(obj), false) }
 
